@@ -1061,3 +1061,16 @@ def lookahead_skips_comments(run, R="MATCH"):
             kinds.add(st["rv"]["variant"])
     run.check(bool(asks) and "Comment" in kinds, R, R + "|lookahead|skips-comments", g.loc(), "the operand lookahead steps over Comment tokens",
               "find_lookahead_char_index scans raw characters without recognising comments: a block comment before or inside an operand changes where the operand ends (`op ;*c*; -1-2` against `op {x}-{y}` gives `no match`)")
+
+
+def precedence_per_operand(run, R="MATCH"):
+    """`a rule that spells an operand literally takes precedence over one that reads the same text as an expression`: the
+    candidates have to be compared operand by operand.  Keeping the candidates with the largest TOTAL number of literal pattern
+    characters lets a rule with more punctuation elsewhere beat a rule that spells the contested operand"""
+    mi = run.anchor(R, "asm::matcher::match_instr")
+    if mi is None:
+        return
+    total = any(n.endswith("get_recursive_exact_part_count") for _, n in callee_names(mi))
+    per_operand = any(re.search(r"(per_operand|literal_operand|compare_specificity)", n) for _, n in callee_names(mi))
+    run.check(per_operand or not total, R, R + "|precedence|per-operand", mi.loc(), "literal-over-expression precedence is decided per operand",
+              "match_instr keeps the candidates with the largest total count of literal pattern characters over the whole rule: with `op a, {y}` and `op {x}, ({y})`, the line `op a, (5)` is encoded by the second rule (5 literal characters against 4) although the first spells the operand `a` literally - `220705` with `a = 7` defined, `unknown symbol a` without")
